@@ -582,8 +582,8 @@ fn set_or_remove(m: &mut Value, k: &str, v: Value) {
 
 fn seed_legacy(wg: &mut WorldGen, r: &mut Rng, accounts: &[String], approvers: &[String], bulk: bool) {
     let n = if bulk {
-        if r.chance(0.12) {
-            r.range(257, 330)
+        if r.chance(0.15) {
+            r.range(300, 420)
         } else {
             r.range(32, 70)
         }
@@ -997,8 +997,9 @@ fn gen_migrate(sim: &Sim, r: &mut Rng, prof: &Profile) -> Step {
         }
     }
     let mut v2_ids: Vec<String> = vec![];
+    let all = r.chance(0.35);
     for id in sim.book.bids.keys() {
-        if r.chance(0.65) {
+        if all || r.chance(0.65) {
             v2_ids.push(id.clone());
         }
     }
